@@ -106,11 +106,104 @@ def dm_search(ctx):
                      "# circuit: " + "; ".join(descr), broken=["C02_corr_dm"])
 
 
+def dm_history(ctx):
+    """the same density-matrix circuit object executed several times, with parameter
+    updates in between and through its fused copy: every execution is U rho U^dagger of
+    the CURRENT gates (a matrix cached at first use must not survive an update)."""
+    from qibo import Circuit, gates
+
+    nb = qgates.np_backend()
+    rng = ctx.rng
+    param = ["RX", "RY", "RZ", "U1", "U2", "U3", "CRX", "CU1", "CU3", "fSim", "RXX", "RZZ", "GPI", "GIVENS", "RBS", "Unitary", "GeneralizedfSim"]
+    infos = qgates.gate_infos()
+
+    def rand_unitary(k):
+        a = np.array([[complex(rng.gauss(0, 1), rng.gauss(0, 1)) for _ in range(2**k)] for _ in range(2**k)])
+        q, r = np.linalg.qr(a)
+        return q * (np.diag(r) / np.abs(np.diag(r)))
+
+    def make(name, n):
+        if name == "Unitary":
+            k = rng.randint(1, min(2, n))
+            qs = rng.sample(range(n), k)
+            return lambda m, qs=qs: gates.Unitary(m, *qs), (lambda k=k: rand_unitary(k))
+        if name == "GeneralizedfSim":
+            if n < 2:
+                return None
+            qs = rng.sample(range(n), 2)
+            return (lambda v, qs=qs: gates.GeneralizedfSim(*qs, v[0], v[1])), (lambda: (rand_unitary(1), rng.uniform(-3, 3)))
+        info = infos[name]
+        if info.nq > n:
+            return None
+        qs = rng.sample(range(n), info.nq)
+        return (lambda v, info=info, qs=qs: info.make(qs, list(v) if isinstance(v, (list, tuple)) else [v])), (lambda info=info: [rng.uniform(-3, 3) for _ in range(info.np)])
+
+    for _ in range(60 if ctx.thorough else 20):
+        n = rng.randint(1, 3)
+        builders = []
+        for _ in range(rng.randint(1, 4)):
+            b = make(rng.choice(param), n)
+            if b:
+                builders.append(b)
+        if not builders:
+            continue
+        fixed_pos = rng.randint(0, len(builders))
+        vals = [newv() for _, newv in builders]
+
+        def build(vals):
+            c = Circuit(n, density_matrix=True)
+            for i, ((ctor, _), v) in enumerate(zip(builders, vals)):
+                if i == fixed_pos and n >= 2:
+                    c.add(gates.CNOT(0, 1))
+                c.add(ctor(v))
+            return c
+
+        def setparams(c, vals):
+            out = []
+            for v in vals:
+                out.append(v if not (isinstance(v, list) and len(v) == 1) else v[0])
+            c.set_parameters([tuple(v) if isinstance(v, list) else v for v in out])
+
+        try:
+            c = build(vals)
+            use_fused = rng.random() < 0.4
+            runner = c.fuse(max_qubits=rng.randint(1, 2)) if use_fused else c
+        except Exception:  # noqa: BLE001
+            ctx.stat("history_build_rejected")
+            continue
+        descr = [g.__class__.__name__ for g in c.queue]
+        ok, step = True, 0
+        for step in range(3):
+            d = 2**n
+            a = np.array([[complex(rng.gauss(0, 1), rng.gauss(0, 1)) for _ in range(d)] for _ in range(d)])
+            rho = a @ a.conj().T
+            rho /= np.trace(rho)
+            fresh = build(vals)
+            U = np.asarray(fresh.unitary(nb))
+            out = np.asarray(nb.execute_circuit(runner, initial_state=rho.copy()).state())
+            if not np.allclose(out, U @ rho @ U.conj().T, atol=1e-9):
+                ok = False
+                break
+            vals = [newv() for _, newv in builders]
+            try:
+                setparams(c, vals)
+            except Exception:  # noqa: BLE001
+                ctx.stat("history_set_rejected")
+                break
+        ctx.case(("dm-history", n, tuple(descr), use_fused))
+        if not ok:
+            ctx.fail(f"dm-history:{'fused' if use_fused else 'plain'}:{descr[0]}",
+                     f"execution #{step + 1} of one density-matrix circuit object ({descr}, fused={use_fused}) after parameter updates is not U rho U^dagger of its current gates",
+                     "# build a density-matrix circuit with " + ", ".join(descr) + "; execute, set_parameters, execute again and compare with a freshly built circuit",
+                     broken=["C02_corr_dm"])
+
+
 def run(ctx):
     MODULES, THEOREMS = registry(PROP)
     ctx.theorems = THEOREMS
     build_and_audit(ctx, PROP, MODULES, THEOREMS)
     dm_correspondence(ctx)
     dm_search(ctx)
+    dm_history(ctx)
     ctx.notes.append("DM correspondence: exhaustive (targets × control subsets) n<=3 (4 thorough) with Gaussian-integer gates and a non-Hermitian integer rho, random circuits; exact comparison; float search over the whole gate library")
     ctx.assumptions.append("theorems cover pure inputs, mixtures of pure inputs (linearity) and trace preservation; Hermiticity/positivity preservation follow from the mixture form and are exercised numerically")
